@@ -995,6 +995,7 @@ func runC16(c *lib.Ctx) {
 	c16PredFamily(c)
 	c16HashFamily(c)
 	c16TypeFamily(c)
+	c16DynFamily(c)
 	c16CompoundFamily(c)
 	if c.GenBroken != "" {
 		// a generated obligation (Theorems/GenC16) no longer builds: attach it to the witnesses the
